@@ -17,6 +17,8 @@ DEFS_A = {
     "S": {"type": "string"},
     "S3": {"type": "string", "maxLength": 3},
     "SPat": {"type": "string", "pattern": "^a+$"},
+    "SMin2": {"type": "string", "minLength": 2},
+    "S24": {"type": "string", "minLength": 2, "maxLength": 4},
     "IEnum": {"type": "integer", "enum": [1, 2]},
     "Uuid": {"type": "string", "format": "uuid"},
     "Ip": {"type": "string", "format": "ipv4"},
@@ -146,7 +148,10 @@ class ValueGen:
         self.rnd = rnd
 
     def string(self):
-        return self.rnd.choice(["", "a", "aa", "aaa", "xyz", "hello world", "q\"uote", "é", "toolong", "red"])
+        return self.rnd.choice(["", "a", "aa", "aaa", "xyz", "hello world", "q\"uote", "é", "toolong", "red",
+                                "\u00e4\u00f6", "\u00e4\u00f6\u00fc", "\u4e2d\u4e2d\u4e2d", "\u4e2d",
+                                "\U0001F600\U0001F600\U0001F600", "\U0001F600\U0001F600\U0001F600\U0001F600",
+                                "a\u00e4\u4e2d\U0001F600", "\U0001F600"])
 
     def integer(self, name):
         lo, hi = INT_RANGES.get(name, (-2**63, 2**63 - 1))
@@ -615,6 +620,23 @@ KINDS = {
     "alias_ienum": (R("IEnum"), [2], [7]),
     "alias_color": (R("Color"), ["green"], ["purple"]),
 }
+# string-constrained newtype defaults at the exact length boundaries, written with 1-, 2-, 3- and 4-byte scalars
+# (lengths are counted in scalar values by the schema, by the generated FromStr/Deserialize and -- it must -- by the
+# add-time check): every tier runs ALL of them in the three default positions
+W1, W2, W3, W4 = "a", "\u00e4", "\u4e2d", "\U0001F600"
+WIDTHS = (W1, W2, W3, W4)
+MIXED = W1 + W2 + W3 + W4
+KINDS.update({
+    "len_max3": ({"type": "string", "maxLength": 3}, [c * 3 for c in WIDTHS] + [MIXED[1:]],
+                 [c * 4 for c in WIDTHS] + [MIXED]),
+    "len_min3": ({"type": "string", "minLength": 3}, [c * 3 for c in WIDTHS] + [MIXED[:3]],
+                 [c * 2 for c in WIDTHS] + [W2 + W4]),
+    "len_2_4": ({"type": "string", "minLength": 2, "maxLength": 4},
+                [c * 2 for c in WIDTHS] + [c * 4 for c in WIDTHS], [c for c in WIDTHS] + [c * 5 for c in WIDTHS]),
+})
+ALWAYS_FULL = ("len_",)      # kinds run exhaustively in every tier
+EXPECT_ACCEPT = ("len_",)    # kinds whose VALID defaults must be accepted and honoured (a rejection is reported)
+
 ALL_DEFS = dict(DEFS_A)
 ALL_DEFS.update(DEFS_B)
 
@@ -772,13 +794,14 @@ def k5_cases(ctx):
     quick = ctx.tier == "quick"
     for kind, (schema, valid, invalid) in KINDS.items():
         positions = ("inline", "ref", "type")
-        if quick:
+        full = (not quick) or kind.startswith(ALWAYS_FULL)
+        if not full:
             # inline always, one of the two other positions drawn by the seed
             positions = ("inline", rnd.choice(["ref", "type"]))
         for pos in positions:
             vs = list(valid)
             ivs = list(invalid)
-            if quick:
+            if not full:
                 # every kind x position every run; one valid + one invalid default drawn by the seed,
                 # the first valid one always (fixed part)
                 pick_v = [vs[0]] + ([rnd.choice(vs[1:])] if len(vs) > 1 and pos == "inline" else [])
@@ -846,6 +869,18 @@ def run_k5(ctx, cases, name=None):
         if valid[i] is None:
             rec["viol"].append({"kind": "oracle-error"})
             continue
+        if MUT == "impl-len-bytes" and m["kind"].startswith("len_") and isinstance(m["default"], str):
+            # emulation of the seeded regression `s.chars().count()` -> `s.len()` in validate_value's newtype arm:
+            # the recorded add-time answer is the one a byte-counting check would give
+            sc = KINDS[m["kind"]][0]
+            nb = len(m["default"].encode("utf-8"))
+            bytes_ok = sc.get("minLength", 0) <= nb <= sc.get("maxLength", 10**9)
+            if bytes_ok and add != "ok":
+                rec["add"] = add = "ok"
+                rec["viol"].append({"kind": "realised-invalid", "where": "emulated", "observed": m["default"]})
+                continue
+            if not bytes_ok and add == "ok":
+                rec["add"] = add = "err"
         if add != "ok":
             rec["outcome"] = "rejected" if not valid[i] else "valid-default-rejected"
             continue
@@ -982,10 +1017,8 @@ def classify(rec, gen, flags):
         return None
     fl = dict(zip(FLAG_NAMES, [c == "T" for c in flags]))
     ents = gen["dump"]["entries"]
-    # classes F1-F6 and F8 are FIXED (findings/C06.json "fixed"): they are deliberately not recognised here, so a
+    # classes F1-F6, F8 and F13 are FIXED (findings/C06.json "fixed"): they are deliberately not recognised here, so a
     # reproduction is reported as a VIOLATION
-    if fl["tuple1var"] and kinds <= {"uncompilable", "builder-chunk-uncompilable"} and rec["valid"]:
-        return "C06-F13"
     if fl["native"] and kinds == {"runtime-panic"} and not rec["valid"]:
         return "C06-F7"
     if kinds <= {"realised-invalid", "invalid-accepted"} and not rec["valid"]:
@@ -1033,7 +1066,7 @@ THEOREMS = [
     "C06_integer_default_fits",
     "C06_unit_null_optional",
     "C06_default_typed_partial",
-    "C06_default_typed_tuple1_variant_refuted",
+    "C06_tuple1_variant_example",
     "C06_default_exact_partial",
     "C06_regression_examples",
 ]
@@ -1121,6 +1154,9 @@ def run(ctx):
             out["violation"] -= 1
             out["not-honoured"] = out.get("not-honoured", 0) + 1
             continue
+        if rec.get("outcome") == "valid-default-rejected" and rec["meta"]["kind"].startswith(EXPECT_ACCEPT):
+            rec["viol"].append({"kind": "valid-default-rejected", "observed": "add_root_schema: %s" % rec["add"],
+                                "note": "a valid default at the exact length boundary must be accepted and honoured"})
         if not rec["viol"]:
             continue
         fid = classify(rec, w.gen[rec["i"]], flags.get(rec["i"], "F" * len(FLAG_NAMES)))
